@@ -35,7 +35,7 @@ func init() { register(c01{}) }
 func (c01) ID() string { return "C01" }
 func (c01) Rule() string {
 	return "cases: (enum) complete enumeration of all native frames of n bytes over the alphabet {00,01,FF} for each of the 12 plane layouts (batched; sub-cases distinct by construction); " +
-		"(struct) frames built from run/literal items with lengths around 2/3 and 127/128/129/256; (rand) seeded geometries x content classes; (long) 65535x1 and 1x65535 per layout. " +
+		"(struct) frames built from run/literal items with lengths around 2/3 and 127/128/129/256; (rand) seeded geometries x content classes; (long) 65535x1 and 1x65535 per layout; (area) pixel counts around 2^16 and 2^17 with both dimensions moderate. " +
 		"A case is non-trivial when Encode accepted the frame and all three oracles (library round trip, Annex G structure, independent PackBits reader) were evaluated; distinct = distinct descriptor."
 }
 func (c01) Assumptions() []string {
@@ -186,6 +186,17 @@ func (c01) Build(tier string, seed uint64) []any {
 				continue
 			}
 			cs = append(cs, &c01Case{Gen: "long", Rows: g[0], Cols: g[1], BA: l[0], SPP: l[1], Planar: l[2], Class: gen.Pick(gen.Sub(seed, "C01", "long", i), "runs", "noise", "lowent", "const"), CSeed: uint64(i) + seed})
+		}
+	}
+	// (area) pixel counts on both sides of 2^16 (and 2^17) with neither dimension large
+	k := 0
+	for _, l := range c01Layouts {
+		for _, g := range [][2]int{{256, 256}, {255, 257}, {257, 256}, {300, 300}, {128, 513}, {512, 128}, {362, 363}} {
+			k++
+			if tier != "thorough" && (k+int(seed))%4 != 0 && !(l[1] == 3 && l[2] == 1 && g[0] == 256 && g[1] == 256) {
+				continue
+			}
+			cs = append(cs, &c01Case{Gen: "area", Rows: g[0], Cols: g[1], BA: l[0], SPP: l[1], Planar: l[2], Class: gen.Pick(gen.Sub(seed, "C01", "area", k), "runs", "noise", "lowent", "smooth"), CSeed: uint64(k) + seed})
 		}
 	}
 	return cs
